@@ -14,7 +14,7 @@ import (
 	"github.com/Eyevinn/mp4ff/mp4"
 )
 
-const cryptoRule = "cases = (a) function level: protect ranges of synthetic AVC/HEVC samples (NAL unit sizes around 0/1/15/16/17/91/92/107/108/111/112/123/127/128/1000 and clear runs > 65535), cbcs protect ranges of generated AVC access units (parameter sets and I/P/B/SP/SI slice headers of every kind from the independent serialiser of the C15 harness, which knows each slice header's byte length: reference list override on/off, PPS L0/L1 defaults drawn apart, list modification, explicit weighted prediction, marking operations, field pictures, slice groups; slices below/at/above 127 bytes; AUD, SEI, in-band parameter sets, end-of-sequence units), AppendProtectRange, CTR crypt over ranges, the CBC pattern cipher with every crypt/skip shape, IV increments incl. carries and wrap, AES blocks; (b) fragment level: clear fragments (real AVC/HEVC/AAC samples of the repository's segments, synthetic AVC samples, and generated AVC tracks whose init segment is built from generated parameter sets) x {cenc, cbcs} x IV {8, 16 bytes, ff..ff} x 1..3 fragments x extra boxes (tfxd uuid, free, unknown, roll sample group) encrypted by the library, checked against an independent crypto/cipher reference and CENC well-formedness, then decrypted and compared with the clear input; (c) auxiliary information at the one-byte saiz limit: IV length {8, 16} x {cenc, cbcs} x one sample with 36..45 sub-sample entries (slices), at fragment level and as prot.enciv model lines: refused, or saiz entries = byte lengths of the senc entries as written and saio offset + sum(saiz) = end of senc (bytes parsed independently); non-trivial = distinct case with at least one protected byte"
+const cryptoRule = "cases = (a) function level: protect ranges of synthetic AVC/HEVC samples (NAL unit sizes around 0/1/15/16/17/91/92/107/108/111/112/123/127/128/1000 and clear runs > 65535), cbcs protect ranges of generated AVC access units (parameter sets and I/P/B/SP/SI slice headers of every kind from the independent serialiser of the C15 harness, which knows each slice header's byte length: reference list override on/off, PPS L0/L1 defaults drawn apart, list modification, explicit weighted prediction, marking operations, field pictures, slice groups; slices below/at/above 127 bytes; AUD, SEI, in-band parameter sets, end-of-sequence units), AppendProtectRange, CTR crypt over ranges, the CBC pattern cipher with every crypt/skip shape, IV increments incl. carries and wrap, AES blocks; (b) fragment level: clear fragments (real AVC/HEVC/AAC samples of the repository's segments, synthetic AVC samples, and generated AVC tracks whose init segment is built from generated parameter sets) x {cenc, cbcs} x IV {8, 16 bytes, ff..ff} x 1..3 fragments x extra boxes (tfxd uuid, free, unknown, roll sample group) encrypted by the library, checked against an independent crypto/cipher reference and CENC well-formedness, then decrypted and compared with the clear input; (c) auxiliary information at the one-byte saiz limit: IV length {8, 16} x {cenc, cbcs} x one sample with 36..45 sub-sample entries (slices), at fragment level and as prot.enciv model lines: refused, or saiz entries = byte lengths of the senc entries as written and saio offset + sum(saiz) = end of senc (bytes parsed independently); (d) multi-track protected inits as packagers write them: 2..4 tracks (repository AVC/HEVC/AAC and generated AVC; each cenc, cbcs or clear with its own 8/16-byte IV) x track IDs from a pool (not ascending, large) x trex boxes of mvex in a permutation of the trak order x mehd/leva/trep/unknown boxes in mvex, pssh/udta in moov, mvex before or after the traks x sample duration/flags in the trun or only in the trex box, through InitProtect, both file decoders, DecryptInit, EncryptFragment / DecryptFragment on single-track fragments of every track and on multi-track fragments (trafs in another order, sometimes interleaved truns), every sample compared byte-for-byte and field-for-field with the clear input, the decrypted init with the never-protected init, every track's decrypt info with the trex box of its own ID (also prot.trex model lines incl. repeated / missing trex boxes); non-trivial = distinct case with at least one protected byte"
 
 func init() {
 	props["C07"] = &propDef{rule: cryptoRule, gen: func(c *Ctx) { genCrypto(c, "C07") }, exec: execCrypto}
@@ -449,6 +449,7 @@ func genCrypto(c *Ctx, which string) {
 	}
 	genAuxLimit(c, which, key) // samples whose auxiliary information is around the one-byte saiz limit (c0607es.go)
 	emitProtModel(c, which)    // box bookkeeping of encrypt / decrypt against the Lean model (c0607model.go)
+	genMultiInit(c, which)     // multi-track protected inits as packagers write them: IDs, trex order, extra boxes (c0607multi.go)
 }
 
 func checkRangesShape(c *Ctx, codec string, s []byte, rs []mp4.SubSamplePattern, req string) {
